@@ -3,7 +3,7 @@ Mutant = 0
 PL0 = 2
 OH0 = 1
 Sizes = {1, 2, 3, 6}
-Bufs = {1, 2, 3}
+Bufs = {1, 2, 3, 4}
 MaxWrites = 2
 MaxReads = 3
 INIT Init
